@@ -481,7 +481,12 @@ func (f *Facts) decide(ts *Terms, c *T, assume bool, val bool) tri {
 }
 
 // Truth decides without assuming.
-func (f *Facts) Truth(ts *Terms, c *T) tri { return f.decide(ts, c, false, false) }
+func (f *Facts) Truth(ts *Terms, c *T) tri {
+	if c == nil {
+		return triU // an anchor that did not resolve: the rule reports it; nothing is known about it
+	}
+	return f.decide(ts, c, false, false)
+}
 
 // Assume records c = val; returns false if that contradicts the facts.
 func (f *Facts) Assume(ts *Terms, c *T, val bool) bool {
